@@ -22,6 +22,8 @@ LEVEL_TEXT += ' Added clause: rule_call returns a memoized result and raises a m
 TECHNIQUE += '; what is memoized for a failure is what is raised (= C06.R3)'
 TECHNIQUE += '; key identity: own __eq__/__ne__/__hash__ of RuleInfo / MemoKey interpreted on rule-name pairs'
 LEVEL_TEXT += ' Added clause: the memo key tells rules apart whose names differ only by underscores, case or a suffix.'
+TECHNIQUE += '; type of the container bound to _results (no evicting __setitem__)'
+LEVEL_TEXT += ' Added clause: seeds and guards of active left recursion are never evicted.'
 LEVEL_NOTE = ('Trusted: dict semantics of BoundedDict eviction (only deletes); an evicted or pruned entry only makes a '
               'rule body run again because the sole reader returns/raises the stored outcome unchanged.')
 EXPLANATION = ('Static analysis of /repo sources, TatSu not imported. Memo-store accesses are enumerated over the '
